@@ -469,3 +469,126 @@ def replay_dealer_send_wait_loops(model, params, role):
 
 # the race for the transaction slot is real: a run in which the waiting task wins at the first gap shows nothing
 REPLAY_INCONCLUSIVE_WHEN_NOT_REPRODUCED = {"dealer_send_wait_loops": True}
+
+
+def req_send_wait_loop(h):
+    """ReqSocket::send with no peer connected and a positive SNDTIMEO: the loop around
+    `timeout(SNDTIMEO, load_balancer.wait_for_connection())`. A peer that connects and is gone again before the
+    sender runs wakes the waiter without giving it a peer (up to `rounds` times); then a peer stays, or the timer
+    fires. Every timer armed must expire at (start of the wait + SNDTIMEO)."""
+    from .d_c09 import _req_socket, REQ, LB, DYN
+    from ..models import instant_ns
+    prog = h.it.prog
+    W = 128
+    d = h.bvar("sndtimeo_ns", W)
+    h.assume(z3.And(z3.UGT(d, 0), z3.ULE(d, z3.BitVecVal(2147483647 * 1_000_000, W))))
+    sock, lb, fields, variants = _req_socket(h, peers=0)
+    # SNDTIMEO in the core's options
+    core = sock.load().f[fields.index("core")].load()
+    cf = prog.struct_fields("socket::core::SocketCore")
+    cs = core.f[cf.index("core_state")].f[0]
+    csf = prog.struct_fields("socket::core::state::CoreState")
+    opts = cs.f[csf.index("options")]
+    of = prog.struct_fields("socket::options::SocketOptions")
+    opts.f[of.index("sndtimeo")] = some(dur_ns(d))
+    clock = {"last": None, "n": 0}
+    def tick():
+        t = h.bvar(f"t{clock['n']}", W)
+        clock["n"] += 1
+        h.assume(z3.ULE(t, z3.BitVecVal(1 << 70, W)))
+        if clock["last"] is not None:
+            h.assume(z3.UGE(t, clock["last"]))
+        clock["last"] = t
+        return t
+    st = {"fire": False, "armed": [], "t_call": None, "sent": 0}
+    wfc = prog.resolve_method("", LB, "wait_for_connection", None)
+    def timeout_fn(it, args, dty, func):
+        now = tick()
+        if st["t_call"] is None:
+            st["t_call"] = now
+        st["armed"].append(simp(now + bv(args[0].f[0], W)))
+        return Agg("{timeout}", [args[0], args[1]])
+    def timeout_at_fn(it, args, dty, func):
+        st["armed"].append(bv(args[0].f[0], W))
+        return Agg("{timeout}", [args[0], args[1]])
+    h.it.hooks["tokio::time::timeout"] = timeout_fn
+    h.it.hooks["tokio::time::timeout_at"] = timeout_at_fn
+    h.it.hooks[DYN + "send_multipart"] = lambda it, a, dd, f: Agg("{future}", ["peer_send"])
+    h.it.hooks["<{mailbox}>::is_closed"] = lambda it2, a, dd, f: False
+    def extern(it, plain, args, dty, func):
+        if plain.startswith("tokio::time::timeout_at"):
+            return timeout_at_fn(it, args, dty, func)
+        if plain.startswith("tokio::time::timeout"):
+            return timeout_fn(it, args, dty, func)
+        if plain in ("tokio::time::Instant::now", "std::time::Instant::now"):
+            t = tick()
+            if st["t_call"] is None:
+                st["t_call"] = t
+            return instant_ns(t)
+        if plain.endswith("Future>::poll"):
+            fut = _deref(args[0])
+            while isinstance(fut, BoxV):
+                fut = _deref(fut.load())
+            if isinstance(fut, Agg) and fut.ty == "{timeout}":
+                inner_ref = fut.f[1] if isinstance(fut.f[1], Ref) else Ref(Cell(fut.f[1], "inner"), ())
+                inner = it.run_body(prog.body(wfc + "::{closure#0}"), [inner_ref, args[1]])
+                if inner.vname == "Ready":
+                    return Enum("std::task::Poll", 0, "Ready", [ok(inner.f[0])])
+                if st["fire"]:
+                    return Enum("std::task::Poll", 0, "Ready", [err(Agg("tokio::time::error::Elapsed", []))])
+                return Enum("std::task::Poll", 1, "Pending", [])
+            if isinstance(fut, Agg) and fut.ty == "{future}":
+                st["sent"] += 1
+                return Enum("std::task::Poll", 0, "Ready", [ok(UNIT)])
+            return NotImplemented
+        if plain.endswith("BoundedAsyncSender::is_closed"):
+            return False
+        if plain.endswith("IntoFuture>::into_future") or plain.startswith("std::pin::Pin::"):
+            return args[0]
+        return NotImplemented
+    h.it.extern = extern
+    h.panic_role = "c14.req-wait"
+    f = Fut(h, REQ, "send", [sock, h.method("message::msg::Msg", "new")], trait="ISocket")
+    r = f.poll()
+    h.check(r is None, "c14.req-wait.setup-send-without-a-peer-did-not-wait", repr(r)[:100])
+    if r is not None:
+        return
+    def check_timers():
+        for i, expiry in enumerate(st["armed"]):
+            h.check(expiry == simp(st["t_call"] + d), "c14.req-wait.timer-does-not-expire-sndtimeo-after-the-wait-started",
+                    f"REQ send waiting for a first peer: arming {i + 1} of {len(st['armed'])} expires later than (start of the wait + SNDTIMEO)")
+    check_timers()
+    h.check(len(st["armed"]) == 1, "c14.req-wait.no-timer-armed-for-positive-sndtimeo", str(len(st["armed"])))
+    peer_no = 0
+    for j in range(h.params.get("rounds", 2)):
+        ev = h.choose(3, f"event{j}")
+        if ev == 0:
+            # a peer connects and is gone again before the sender runs
+            uri = string("flap%d" % peer_no)
+            peer_no += 1
+            h.method(LB, "add_connection", lb, clone_val(uri), BoxV(Cell(Agg("{peer}", [9]), "peer"), (), "{peer}"))
+            h.method(LB, "remove_connection", lb, _str_ref(uri))
+            r = f.poll()
+            h.check(r is None, "c14.req-wait.gave-up-or-completed-without-a-peer", repr(r)[:100])
+            if r is not None:
+                return
+            check_timers()
+            h.cover("c14.req-wait.woken-without-a-peer")
+        elif ev == 1:
+            h.method(LB, "add_connection", lb, string("stay"), BoxV(Cell(Agg("{peer}", [1]), "peer"), (), "{peer}"))
+            r = f.poll()
+            h.check(r is not None and r.idx == 0 and st["sent"] == 1, "c14.req-wait.did-not-send-when-a-peer-connected", "pending" if r is None else repr(r)[:100])
+            h.cover("c14.req-wait.completed-after-wait")
+            return
+        else:
+            st["fire"] = True
+            r = f.poll()
+            h.check(r is not None and r.idx == 1 and r.f[0].vname in ("Timeout", "ResourceLimitReached"), "c14.req-wait.elapsed-send-did-not-fail-with-timeout",
+                    "pending" if r is None else repr(r)[:100])
+            h.check(st["sent"] == 0, "c14.req-wait.timed-out-send-was-sent")
+            h.cover("c14.req-wait.timed-out")
+            return
+
+
+def _str_ref(s):
+    return SliceRef(Ref(Cell(s, "s"), ()), 0, len(s.f), True)
